@@ -223,6 +223,56 @@ class Srv:
         body = {"numberSteps": n, "settings": self.settings(sc, set_) if set_ > 0 else {}}
         return self.req("POST", "/%s/run-steps" % self.uid(i), body)
 
+    # -- stream-steps at the granularity a client sees it ------------------------------------------------
+    def _read_result(self, i):
+        """the next result object of the open stream of i (None when the stream has ended)"""
+        r, it = self.streams[i]
+        for ch in it:
+            ch = ch.decode() if isinstance(ch, bytes) else ch
+            if ch.lstrip().startswith("{"):
+                return json.loads(ch)
+        return None
+
+    def stream_open(self, i, set_, sc):
+        if not hasattr(self, "streams"):
+            self.streams = {}
+        body = {"settings": self.settings(sc, set_) if set_ > 0 else {}}
+        r = self.client.post("/%s/stream-steps" % self.uid(i), data=json.dumps(body), content_type="application/json", buffered=False,
+                             headers=self._hdr())
+        if r.status_code != 200:
+            data = r.get_data(as_text=True)
+            r.close()
+            return r.status_code, data
+        probe = iter(r.response)
+        first = next(probe, b"")
+        first = first.decode() if isinstance(first, bytes) else first
+        if not first.startswith("["):          # an error body, not a stream
+            r.close()
+            try:
+                return (500 if "error" in first else r.status_code), json.loads(first)
+            except Exception:
+                return 500, first
+        self.streams[i] = (r, probe)
+        return 200, self._read_result(i)
+
+    def stream_next(self, i):
+        if i not in getattr(self, "streams", {}):
+            return 500, "no open stream"
+        d = self._read_result(i)
+        return (200, d) if d is not None else (500, "stream ended")
+
+    def stream_close(self, i):
+        if i not in getattr(self, "streams", {}):
+            return 500, "no open stream"
+        r, it = self.streams.pop(i)
+        for _ in ([] if True else it):
+            pass
+        try:
+            it.close() if hasattr(it, "close") else None
+        finally:
+            r.close()
+        return 200, None
+
     def crash(self):
         """the process is lost: nothing of the old server object survives except the state directory"""
         old = self.app
